@@ -837,6 +837,9 @@ class RTDCWriter:
         if len(data.shape) == 1:
             # store scalar data in one go
             dset[offset:] = data
+            # The summaries describe the values as they are stored (the
+            # dataset may have cast `data`, e.g. to an integer type).
+            data = dset[offset:]
             # store ufunc data for min/max
             for uname, ufunc in [("min", np.nanmin),
                                  ("max", np.nanmax)]:
